@@ -53,6 +53,10 @@ def extend_loop(C, ctx, config, b, fn, sink_suffix, what):
                                                                                                 and len(own_calls(r, trait='Iterator::next')) == 1))
     # the loop may sit in the impl itself or in a private helper it was moved into: the sink call must be inside a loop of its own frame
     inloop = bool(sk) and any(bid == sk[0].fn and sk[0].block in I.cfg(I.bodies[bid]).loops().get(h, ()) for (bid, h) in r.loops if bid in I.bodies)
+    if not inloop and sk and it:
+        # internal iteration: `into_iter(arg).for_each(|x| sink(self, x))` -- the sink sits in the closure handed to for_each
+        fe = [e for e in own_calls(r) if (e.callee or '').endswith('Iterator::for_each') and e.args and e.args[0] == it[0].ret and len(e.args) > 1 and e.args[1][0] == 'agg' and e.args[1][1].startswith('closure:')]
+        inloop = len(fe) == 1 and any(f[0] == fe[0].args[1][1][len('closure:'):] for f in sk[0].stack[1:])
     C.check(fn, 'every item of the argument iterator is handed to %s on self, in iteration order' % what, okv and inloop, '', b.get('span'))
 
 
